@@ -245,33 +245,69 @@ def run(cx):
             r.ok(n or attr)
 
     # ---- C12-TOOLS ---------------------------------------------------------------------------
-    r = cx.rule("C12-TOOLS", "compile_upload runs `pio run` then `pio run -t upload`, each exactly once, check=True, in the project dir, never inside a handler or loop; ensure_pio converts any failure into RuntimeError", floor=8)
+    r = cx.rule("C12-TOOLS", "compile_upload, evaluated against a scripted tool over success / failure / death-by-signal statuses of either step: runs `pio run` then `pio run -t upload` in the project dir, exactly once each; a failed build raises and never reaches the upload, a failed upload raises; ensure_pio converts any failure into RuntimeError", floor=8)
     cu = mp.func("compile_upload")
     is_run = lambda c: call_name(c) in ("subprocess.run", "subprocess.check_call")
-    runs = [c for c in calls_in(cu) if is_run(c)]
-    cnt = CallCount(is_run).run_function(cu, (0, 0))
-    exits = [s for _n, s in cnt.ret] + ([cnt.fall] if cnt.fall is not None else [])
-    r.check(bool(exits) and all(s == (2, 2) for s in exits), "compile_upload/exactly-two-runs-per-path", (mp, cu), f"number of tool invocations per normal path is {exits}, expected exactly 2")
-    other_tools = [c for c in calls_in(cu) if (call_name(c) or "") in EFFECT_CALLS and not is_run(c)]
+    # compile_upload evaluated by the checker's interpreter against a scripted tool: every process start goes to a recorder
+    # that answers with a chosen exit status (check=True / check_call semantics modelled: non-zero raises CalledProcessError),
+    # so helpers, wrappers and explicit return-code tests are all followed.  Statuses cover success, ordinary failures and
+    # death by signal (negative).
+    from .. import dl
+    other_tools = [c for q_, f_ in mp.funcs.items() if q_ == "compile_upload" or q_.startswith("_") for c in calls_in(f_) if (call_name(c) or "") in EFFECT_CALLS and not is_run(c) and q_ not in ("ensure_pio",)]
+    other_tools = [c for c in other_tools if mp.enclosing_func(c) is cu or any(isinstance(x, ast.Call) and call_name(x) == mp.enclosing_func(c).name for x in ast.walk(cu))]
     r.check(not other_tools, "compile_upload/no-other-process", (mp, cu), "compile_upload starts a process other than its two pio runs")
     want = [["pio", "run"], ["pio", "run", "-t", "upload"]]
-    culoc = Locals(cu)
-    for i, c in enumerate(runs[:2]):
-        argv = lit.try_ev(culoc.resolve(c.args[0])) if c.args else None
-        r.check(argv == want[i], f"compile_upload/argv[{i}]", (mp, c), f"tool invocation #{i + 1} is {argv!r}, expected {want[i]!r}")
-        chk = kwarg(c, "check")
-        r.check(call_name(c) == "subprocess.check_call" or (chk is not None and lit.try_ev(chk) is True), f"compile_upload/check=True[{i}]", (mp, c), "tool failure must raise (check=True)")
-        cwd = kwarg(c, "cwd")
-        cw = culoc.resolve(cwd) if cwd is not None else None
-        r.check(cw is not None and "project_dir" in norm(cw), f"compile_upload/cwd[{i}]", (mp, c), "pio must run in the project directory")
-    for c in runs:
-        for anc in mp.ancestors(c):
-            if anc is cu:
-                break
-            if isinstance(anc, ast.Try) and anc.handlers:
-                r.fail("compile_upload/run-inside-try", (mp, c), "a pio invocation sits inside try/except: its failure may be swallowed instead of propagating")
-            if isinstance(anc, (ast.For, ast.While)):
-                r.fail("compile_upload/run-inside-loop", (mp, c), "a pio invocation sits inside a loop")
+
+    class _Done(dl.Synth):
+        __dl_native__ = True      # a recorder object of the checker: CompletedProcess with its one behavioural method
+
+        def check_returncode(self):
+            if self.returncode != 0:
+                raise dl.Raised("CalledProcessError", f"exit {self.returncode}")
+
+    class _SysStub(dl.Synth):
+        stderr = None
+        stdout = None
+
+    def scripted(statuses):
+        log = []
+
+        def run(cmd, *a_, **kw_):
+            i_ = len(log)
+            rc = statuses[i_] if i_ < len(statuses) else statuses[-1]      # a failing step keeps failing however often it is retried
+            log.append((list(cmd) if isinstance(cmd, (list, tuple)) else cmd, kw_.get("cwd"), rc))
+            if kw_.get("check") and rc != 0:
+                raise dl.Raised("CalledProcessError", f"exit {rc}")
+            d_ = _Done()
+            d_.returncode, d_.stdout, d_.stderr, d_.args = rc, "", "", cmd
+            return d_
+
+        def check_call(cmd, *a_, **kw_):
+            kw_["check"] = True
+            run(cmd, *a_, **kw_)
+            return 0
+        return log, {"subprocess.run": run, "subprocess.check_call": check_call, "subprocess.call": lambda cmd, *a_, **kw_: run(cmd, *a_, **kw_).returncode,
+                     "subprocess.CalledProcessError": lambda *a_, **k_: dl.Raised("CalledProcessError", ""), "Path": lambda p_: p_, "print": lambda *a_, **k_: None, "str": str}
+
+    fails = (1, 2, 255, -9, -2)
+    scen = [(0, 0)] + [(f_,) for f_ in fails] + [(0, f_) for f_ in fails]
+    for st in scen:
+        log, opq = scripted(st)
+        try:
+            out = dl.Interp(mp, opaque=opq, extra_env={"sys": _SysStub()}).call(cu, ["/proj/dir"])
+        except dl.Unsupported as e:
+            raise AnalysisError(f"compile_upload left the evaluable subset: {e}")
+        tag = "ok" if st == (0, 0) else f"{'build' if len(st) == 1 else 'upload'}-exit[{st[-1]}]"
+        argvs = [l_[0] for l_ in log]
+        if st == (0, 0):
+            r.check(out.kind == "return" and argvs == want, "compile_upload/exactly-two-runs-per-path", (mp, cu), f"with both steps succeeding compile_upload -> {out!r} after running {argvs}; expected exactly {want}")
+            for i_, l_ in enumerate(log[:2]):
+                r.check(l_[0] == want[i_], f"compile_upload/argv[{i_}]", (mp, cu), f"tool invocation #{i_ + 1} is {l_[0]!r}, expected {want[i_]!r}")
+                r.check(l_[1] == "/proj/dir", f"compile_upload/cwd[{i_}]", (mp, cu), f"pio step #{i_ + 1} runs with cwd={l_[1]!r}: it must run in the project directory")
+        elif len(st) == 1:
+            r.check(out.kind == "raise" and len(log) == 1, f"compile_upload/failed-build-stops[{st[0]}]", (mp, cu), f"the build step ends with status {st[0]}: compile_upload -> {out!r} after running {argvs}; a failed build must raise and never reach the upload step")
+        else:
+            r.check(out.kind == "raise" and argvs[:2] == want and all(a_ == want[1] for a_ in argvs[2:]), f"compile_upload/failed-upload-raises[{st[1]}]", (mp, cu), f"the upload step ends with status {st[1]}: compile_upload -> {out!r}; a tool failure must propagate")
     ep = mp.func("ensure_pio")
     # every call of ensure_pio probes: no normal exit without having invoked pio (a remembered "already checked" flag would
     # turn a failed probe into a pass on the next call)
